@@ -64,7 +64,8 @@ def run(ctx):
     ctx.coverage["rule"] = ("layered DAGs of 2-6 targets; every build selects //...; histories of edits / tampering with output paths "
                             "(delete, modify, delete directory output) / fingerprint-only edits, each followed by a build, the last build "
                             "repeated; families: " + ", ".join("%s%s x%d" % (f, "(minimal)" if kw.get("minimal") else "", n) for f, n, kw in fams) +
-                            " + glob-matches-dependency-output; non-trivial = distinct history with >=2 builds, one executing and one with a hit")
+                            " + glob-matches-dependency-output; taintedit = taint + edit of the tainted target + no-op rebuild, relocate = the workspace moved to "
+                            "another absolute path with its cache directory renamed along, dirs = directory outputs with a symlink tampered in place; non-trivial = distinct history with >=2 builds, one executing and one with a hit")
     recs = H.run_both(ctx, hists, "c02")
     if recs is None:
         return
